@@ -80,6 +80,9 @@ fn view_key(kind: ElementKind, key: &str) -> String {
         (ElementKind::Assertion, "by") => "asserted_by".to_string(),
         (ElementKind::Assertion, "status") => "lifecycle.status".to_string(),
         (ElementKind::Evidence, "status") => "lifecycle.status".to_string(),
+        // The view renders the element state under `_system`; the live path
+        // answers the `state` key from the index column of the same name.
+        (_, "state") => "_system.state".to_string(),
         _ => key.to_string(),
     }
 }
